@@ -108,7 +108,7 @@ class LifeSystem:
         self.polls += 1
         if self.poll_fail:
             raise fakes.FakeRpcError('unavailable')
-        cur = getattr(self, 'late_hash', 'h1')      # (the service has a new configuration for every life of the agent)
+        cur = getattr(self, 'late_hash', 'h1')      # (see start(): a new configuration with every second life)
         if request.current_hash == cur:
             return PollResponse(ts_nanos=1, current_hash=cur, response_type=ResponseType.NO_CHANGE)
         tp = TracePointConfig(ID='life', path=self.path.rsplit('/', 1)[-1], line_number=self.marks['beat'],
@@ -143,7 +143,9 @@ class LifeSystem:
     def start(self):
         if not self.deep.started:
             self.lives = getattr(self, 'lives', 0) + 1
-            self.late_hash = 'h%d' % self.lives
+            # the service's configuration changes with every SECOND life only: a life that follows a shutdown with the
+            # configuration unchanged gets 'no change' for the hash the agent still holds, and must act on it all the same
+            self.late_hash = 'h%d' % ((self.lives + 1) // 2)
             self.poll_fail = False          # (a service that failed during the previous shutdown is back for this life)
         self.deep.start()
 
